@@ -9,7 +9,8 @@ namespace OP2Utility::Stream
 
 	void MemoryWriter::WriteImplementation(const void* buffer, std::size_t size)
 	{
-		if (offset + size > streamSize) {
+		// Note: offset <= streamSize always holds, so the subtraction cannot wrap (unlike offset + size)
+		if (size > streamSize - offset) {
 			throw std::runtime_error("Size of bytes to write exceeds remaining size of buffer.");
 		}
 
